@@ -126,6 +126,24 @@ def policy_cases(thorough=False):
             tr = b"".join(b"T%d: v\r\n" % i for i in range(n))
             yield ("%d trailer fields, limit_request_fields=%d" % (n, lim), spec,
                    head + b"Transfer-Encoding: chunked\r\n\r\n3\r\nabc\r\n0\r\n" + tr + b"\r\n", n, lim, "trailer-fields", True)
+    # limit_request_field_size = 0 is documented as unlimited: under every policy, folded or not, a field is not rejected for size
+    for n in (20, 300):
+        spec = lp.make_spec(limit_request_field_size=0, permit_obsolete_folding=True)
+        l1 = b"X: " + b"v" * (n // 2)
+        l2 = b" " + b"w" * (n // 2)
+        yield ("folded field of %d bytes, limit_request_field_size=0 (unlimited)" % (len(l1) + 2 + len(l2)), spec,
+               head + l1 + b"\r\n" + l2 + b"\r\n" + l2 + b"\r\n\r\n", len(l1) + 4 + 2 * len(l2), 0, "fsize-folded", False)
+        for mtag, mflags in (("drop", {}), ("refuse", dict(header_map="refuse")), ("dangerous", dict(header_map="dangerous")),
+                             ("strip-spaces", dict(strip_header_spaces=True))):
+            for name in (b"X-Pad", b"X_Pad"):
+                spec = lp.make_spec(limit_request_field_size=0, **mflags)
+                fld = name + b": " + b"v" * n
+                yield ("field %s of %d bytes (%s), limit_request_field_size=0 (unlimited)" % (name.decode(), len(fld), mtag), spec,
+                       head + fld + b"\r\n\r\n", len(fld), 0, "fsize-policy", False)
+        spec = lp.make_spec(limit_request_field_size=0)
+        tr = b"T: " + b"v" * n
+        yield ("trailer field of %d bytes, limit_request_field_size=0 (unlimited)" % len(tr), spec,
+               head + b"Transfer-Encoding: chunked\r\n\r\n3\r\nabc\r\n0\r\n" + tr + b"\r\n\r\n", len(tr), 0, "trailer-fsize", True)
     for lim in ([12, 40] if not thorough else [12, 16, 40, 100, 1000]):
         for n in (lim - 3, lim - 2, lim, lim + 1, lim + 5):
             # a folded field of n bytes in all (two lines, each with its CRLF counted by gunicorn)
@@ -292,8 +310,12 @@ def run(ctx):
         else:
             # gunicorn counts the CRLF of every line of the field; both readings accepted in the 2-bytes-per-line window
             lines = 2 if fam == "fsize-folded" else 1
-            judge(what, spec, stream, must_reject=(n > lim), must_accept=(n + 2 * lines <= lim), size_errors=("LimitRequestHeaders",),
-                  key=(fam, what), read_body=rb)
+            if lim == 0:                 # unlimited
+                judge(what, spec, stream, must_reject=False, must_accept=True, size_errors=("LimitRequestHeaders",),
+                      key=(fam, what), read_body=rb)
+            else:
+                judge(what, spec, stream, must_reject=(n > lim), must_accept=(n + 2 * lines <= lim), size_errors=("LimitRequestHeaders",),
+                      key=(fam, what), read_body=rb)
         ctx.hist("family", fam)
     # chunk-size line and trailer block found within one read but beyond the cap (the test after the terminator was seen)
     head = b"POST / HTTP/1.1\r\nTransfer-Encoding: chunked\r\n\r\n"
